@@ -426,14 +426,24 @@ class IncomerTls(Incomer):
                 return False
             elif ex.errno in (ssl.SSL_ERROR_EOF, ):
                 self.shutclose()
-                raise   # should give up here nicely
+                self.cutoff = True  # far side went away during handshake
+                return False
             else:
                 self.shutclose()
                 raise
         except OSError as ex:
             self.shutclose()
-            if ex.errno in (errno.ECONNABORTED, ):
-                raise  # should give up here nicely
+            if ex.errno in (errno.ECONNABORTED,
+                            errno.ECONNRESET,
+                            errno.ENETRESET,
+                            errno.ENETUNREACH,
+                            errno.EHOSTUNREACH,
+                            errno.ENETDOWN,
+                            errno.EHOSTDOWN,
+                            errno.ETIMEDOUT,
+                            errno.ECONNREFUSED):
+                self.cutoff = True  # far side went away during handshake
+                return False
             raise
         except Exception as ex:
             self.shutclose()
@@ -944,6 +954,8 @@ class ServerTls(Server):
         for ca, cx in self.cxes.items():
             if cx.serviceHandshake():
                 self.ixes[ca] = cx
+                del self.cxes[ca]
+            elif cx.cutoff:  # connection lost during handshake so give up on it
                 del self.cxes[ca]
 
     def serviceConnects(self):
